@@ -74,6 +74,7 @@ def run(repo, rep, tier):
     clamp(repo, rep)
     refusals(repo, rep)
     order(repo, rep)
+    sorts_every_ordering(repo, rep)
     r_freshcopy_local(repo, rep)
     clients(repo, rep)
     fam = [(MOD, "%s.%s" % (CLS, q)) for q in ("set", "_order_points", "_compute_table", "_newton_diff", "__call__", "derivative", "root", "minmax")]
@@ -253,6 +254,52 @@ def order(repo, rep):
         rep.violation("R-ORDER", "%s.%s" % (MOD, q2), "order-in-place", "ordering mutates %s in place" % sorted(needs))
     else:
         rep.ok("R-ORDER", "%s.%s" % (MOD, q2), "ordering works on copies and rebinds the fields")
+
+
+def sorts_every_ordering(repo, rep):
+    """R-ORDERINGS: _order_points touches the abscissae only through comparisons (min/max/index/<) and a 'greater than all'
+    sentinel, so its behaviour on n points is determined by their ordering.  It is executed (loops unrolled) on a literal
+    table of n = 2..5 points for every one of the n! orderings, one representative per ordering, ordinates symbolic:
+    the stored abscissae must come out ascending and the ordinates permuted along with them."""
+    import itertools
+    rep.rule("R-ORDERINGS", "the routine is decided on every ordering class of its inputs (values touched only through comparisons)")
+    q = CLS + "._order_points"
+    site = "%s.%s" % (MOD, q)
+    n_ok = n_all = 0
+    bad = None
+    for n in (2, 3, 4, 5):
+        for perm in itertools.permutations(range(n)):
+            X = ("list",) + tuple(T.num(10 * (r + 1)) for r in perm)
+            Y = ("list",) + tuple(T.sym("Y%d" % i) for i in range(n))
+            try:
+                outs, _ = symx.eval_function(repo, MOD, q, arg_terms={"self": T.sym("self")}, extra_env={"self._x": X, "self._y": Y}, unroll=8)
+            except AnalysisError as e:
+                rep.inconcl("R-ORDERINGS", site, "ordering not executable symbolically: %s" % e)
+                return
+            order_ = sorted(range(n), key=lambda i: perm[i])
+            want_x = ("list",) + tuple(sorted(X[1:], key=lambda t: t[1]))
+            want_y = ("list",) + tuple(Y[1:][i] for i in order_)
+            n_all += 1
+            for o in outs:
+                if o.kind == "raise":
+                    continue
+                xs, ys = o.env.get("self._x"), o.env.get("self._y")
+                if xs is None or ys is None or xs[0] not in ("list", "tuple") or any(e[0] != "num" for e in xs[1:]):
+                    rep.inconcl("R-ORDERINGS", site, "stored table not resolved to a literal list for ordering %s" % (perm,))
+                    return
+                if tuple(xs[1:]) == tuple(want_x[1:]) and tuple(ys[1:]) == tuple(want_y[1:]):
+                    n_ok += 1
+                elif bad is None:
+                    bad = (perm, [int(e[1]) // 10 for e in xs[1:]], tuple(xs[1:]) == tuple(want_x[1:]))
+    rep.floor("orderings of 2..5 points decided for _order_points", n_all, 152)
+    if bad is None:
+        rep.ok("R-ORDERINGS", site, "ascending abscissae with ordinates carried along on all %d orderings of 2..5 points" % n_ok, obligation=True)
+    else:
+        perm, got, xs_ok = bad
+        rep.violation("R-ORDERINGS", site, "unsorted:%s" % (",".join(str(r + 1) for r in perm)),
+                      "points supplied with abscissae ranked %s are stored as %s%s: the table is not in ascending order, so range checks, "
+                      "root() and minmax() use wrong limits and the result depends on the order of the points"
+                      % ([r + 1 for r in perm], got, "" if not xs_ok else " with the ordinates not carried along"), obligation=True)
 
 
 def r_freshcopy_local(repo, rep):
